@@ -273,7 +273,7 @@ def case_st(quick):
     })
 
 def shard(ctx):
-    run_hypothesis(ctx, case_st(ctx.quick()), lambda c: run_case(ctx, c), ctx.n(1200, 16000), shrink=False)
+    run_hypothesis(ctx, case_st(ctx.quick()), lambda c: run_case(ctx, c), ctx.n(3200, 16000), shrink=False)
 
 def replay(ctx, case):
     run_case(ctx, case)
